@@ -77,7 +77,10 @@ CHECKS = {
    text="GroupBy is an explicit TLA+ operator (QValue.GroupBy: names = distinct textual key values in first-appearance order, items = "
         "the input objects in order minus the key) whose partition property TLC checks on every generated array. Value::GroupBy is "
         "run on every 1- and 2-object array over group value x key position x key-value kind x with/without a removed member and on "
-        "random arrays of 1..5 objects; each (input, result, source-unchanged) event is evaluated by TLC against the operator.",
+        "random arrays of 1..5 objects; each (input, result, source-unchanged) event is evaluated by TLC against the operator. The walk of "
+        "Value::GroupBy over the slot representation is transcribed (QGroupImpl): TLC checks it against the operator for every array of "
+        "<= 2 (thorough 3) records over 196 slot layouts, rejects three seeded / earlier variants, and the oracle demands that the engine's "
+        "result is the transcription's result on the logged slot layout (model drift otherwise).",
    note="TLC as batch oracle over recorded events; real-valued grouping keys are not generated; <loop group=> is bound by the template checks.",
    technique="TLA+ GroupBy operator + partition invariant; TLC batch oracle over recorded Value::GroupBy events",
    design="6 (C18)"),
